@@ -1020,6 +1020,17 @@ package vanguard
 //@   requires headers != nil && op != nil && op.request != nil && op.request.URL != nil
 //@   ensures[C02] err == nil ==> !hdrHas(headers, "Content-Type") && !hdrHas(headers, "Accept-Encoding") && !hdrHas(headers, "Connect-Protocol-Version") && !hdrHas(headers, "Connect-Timeout-Ms")
 //@   modifies mapobj(headers), op.queryVars, #LIB0
+// C11: a field path handed back without error has a descriptor in every position (a nil element is
+// dereferenced by setParameter): the result has one slot per dot-separated element, and the walk fills
+// all of them. bytecount(s, '.') is the trusted link between strings.Count and strings.IndexByte.
+//@ func resolvePathToFieldDescriptors
+//@   requires msg != nil
+//@   loop 1 invariant[C11] 0 <= i__1 && i__1 < len(result) && remaining != "" && len(result) == i__1 + uf("bytecount", remaining, 46) + 1
+//@   loop 1 invariant[C11] forall k in [0, i__1): result[k] != nil
+//@   loop 1 invariant msg != nil && fields != nil
+//@   ensures[C11] err == nil ==> len(r0) >= 1
+//@   ensures[C11] forall k in [0, len(r0)): err == nil ==> r0[k] != nil
+
 // C01 (REST backends, same remark): the query string is accumulated - every element of a repeated
 // field and every singular field adds one value; nothing already written is overwritten or removed.
 //@ func httpEncodePathValues$1
